@@ -32,7 +32,7 @@ impl Property for C03 {
     const ID: &'static str = "C03";
 
     fn rule() -> String {
-        "Transactions with 1..6 inputs and 0..6 outputs (sometimes 250+), fields from the boundary sets, parsed fresh from bytes or (30 %) reached through the mutation API after the hash cache was filled for a one-field variant; every input index; the six FORKID flags; subscripts from the script grammar with total lengths incl. 0, 252..256, 65535..65537; any u64 value. Oracle: preimage computed from the wire fields by the replay-protected sighash specification (refimpl::sighash); for a quarter of the cases Transaction::sign, whose (r,s) are verified by the reference secp256k1 ECDSA under the reference public key over reference SHA-256d of the reference preimage. Non-trivial = input index > 0, a non-palindromic sequence, a flag other than 0x41, a subscript of >= 253 bytes, or a signing case; distinct by hash of the serialised case.".into()
+        "Transactions with 1..6 inputs and 0..6 outputs (sometimes 250+), fields from the boundary sets, parsed fresh from bytes or (30 %) reached through the mutation API after the hash cache was filled for a one-field variant or for the transaction still lacking one to three inputs / outputs, which add_input(s), prepend_input, insert_input and their output counterparts then supply; every input index; the six FORKID flags; subscripts from the script grammar with total lengths incl. 0, 252..256, 65535..65537; any u64 value. Oracle: preimage computed from the wire fields by the replay-protected sighash specification (refimpl::sighash); for a quarter of the cases Transaction::sign, whose (r,s) are verified by the reference secp256k1 ECDSA under the reference public key over reference SHA-256d of the reference preimage. Non-trivial = input index > 0, a non-palindromic sequence, a flag other than 0x41, a subscript of >= 253 bytes, or a signing case; distinct by hash of the serialised case.".into()
     }
 
     fn assumptions() -> Vec<String> {
@@ -44,7 +44,7 @@ impl Property for C03 {
     }
 
     fn strategy(_tier: Tier) -> BoxedStrategy<Case> {
-        (gtx_sig(), any::<u16>(), prop::sample::select(FORKID_FLAGS.to_vec()), subscript(2), gen::u64_edge(), prop::option::weighted(0.25, keys::key()), prop::option::weighted(0.3, (0u8..6, 0u8..7, any::<u16>()).prop_map(|(warm_flag, field, which)| History { warm_flag, field, which })))
+        (gtx_sig(), any::<u16>(), prop::sample::select(FORKID_FLAGS.to_vec()), subscript(2), gen::u64_edge(), prop::option::weighted(0.25, keys::key()), prop::option::weighted(0.3, (0u8..6, 0u8..15, any::<u16>()).prop_map(|(warm_flag, field, which)| History { warm_flag, field, which })))
             .prop_map(|(tx, idx, flag, script, value, sign, history)| Case { tx, idx, flag, script, value, sign, history })
             .boxed()
     }
@@ -61,6 +61,7 @@ impl Property for C03 {
             Some(h) => match reach_through_history(&r, h, idx, &script, c.value, &FORKID_FLAGS)? {
                 Some(t) => {
                     o.nt("reached-through-history");
+                    o.label_if(h.field % 15 >= 7, "history-supplied-missing-inputs-or-outputs");
                     t
                 }
                 None => parse_fresh(&r)?,
